@@ -216,12 +216,12 @@ def interval(rng, kind):
         "pos": (x, y), "neg": (-y, -x), "straddle": (-x, y), "touch0-right": (0.0, y), "touch0-left": (-y, 0.0),
         "right-halfline": (x, INF), "left-halfline": (-INF, -x), "halfline-from0": (0.0, INF), "halfline-to0": (-INF, 0.0),
         "left-halfline-straddle": (-INF, x), "right-halfline-straddle": (-x, INF), "whole-line": (-INF, INF), "point": (x, x),
-        "point-neg": (-x, -x),
+        "point-neg": (-x, -x), "point-zero": (0.0, 0.0),
     }[kind]
 
 
 INTERVAL_KINDS = ["pos", "neg", "straddle", "touch0-right", "touch0-left", "right-halfline", "left-halfline", "halfline-from0",
-                  "halfline-to0", "left-halfline-straddle", "right-halfline-straddle", "whole-line", "point", "point-neg"]
+                  "halfline-to0", "left-halfline-straddle", "right-halfline-straddle", "whole-line", "point", "point-neg", "point-zero"]
 
 
 # ----------------------------------------------------------------------------- oracle: quadrature of the implementation's density
